@@ -125,7 +125,7 @@ def space(tier):
     sp = sp + staticprops.gen_assignments(["int8_t", "uint16_t", "int32_t", "uint64_t"] if tier == "quick" else staticprops.T8, ["int8_t", "uint8_t", "int32_t", "uint64_t"] if tier == "quick" else staticprops.T8)
     # folded-away conditional arms (the two layouts collect the remaining operations differently)
     fold = [s for s in staticprops.gen_folding() if s.tag[0].startswith("cfold")]
-    sp = sp + [s for s in fold if tier == "thorough" or s.tag[0] in ("cfold4", "cfold5", "cfold6", "cfold7") or s.tag[1] in ("0", "1")]
+    sp = sp + [s for s in fold if tier == "thorough" or s.tag[0] in ("cfold4", "cfold5", "cfold6", "cfold7", "cfold8") or s.tag[1] in ("0", "1")]
     # every way to update a register-like target next to reads of it (the layouts emit reads and writes in different orders)
     sp = sp + staticprops.gen_reg_updates()
     return sp
